@@ -68,7 +68,9 @@ namespace GeographicLib {
           / atan2(        ty - tx , 1 +         tx * ty);
       else {
         tx = 1/tx; ty = 1/ty;
-        r = atan2(base::_fm1 * (ty - tx), base::_e2m1 + tx * ty)
+        // The reciprocals of distinct tangents can round to the same number
+        r = tx == ty ? base::_fm1 * (1 + tx * ty) / (base::_e2m1 + tx * ty) :
+          atan2(base::_fm1 * (ty - tx), base::_e2m1 + tx * ty)
           / atan2(        ty - tx ,   1   + tx * ty);
       }
     }
